@@ -202,6 +202,7 @@ type Explorer struct {
 	Paths     int
 	Imprecise string // non-empty when a cap was hit
 	AutoTrack bool
+	NoHist    bool // do not record branch history (rules that only need current facts, in loops)
 	memo      map[string][]exitRec
 	condCount map[string]map[string]int
 	infos     map[string]*fnInfo
@@ -635,7 +636,7 @@ func (e *Explorer) branch(fr *Frame, s *State, iff *ssa.If, b *ssa.BasicBlock, w
 			at.Sticky = sticky
 			at.Frame = fr.ID
 			st.Facts.Add(at)
-			if sticky {
+			if sticky && !e.NoHist {
 				st.Hist[Plain(at.String())] = true
 			}
 		}
